@@ -5,6 +5,7 @@
 //              oas_corpus::build(i)           a freshly allocated Library (free with destroy())
 //              oas_corpus::describe(i)        JSON object describing library i
 //              oas_corpus::info(i)            classification used for tiers / non-triviality
+//              oas_corpus::key(i) / find_key  stable member identifier (survives corpus growth)
 //              oas_corpus::destroy(lib)       frees the library, its cells and the cells that were
 //                                             deliberately NOT added to it
 //
@@ -212,10 +213,13 @@ inline const std::vector<PropList>& property_lists() {
     v.push_back({"s_empty", {{"a", {ps("")}}}});
     v.push_back({"mixed5", {{"mixed", {pu(1), pi(-2), pr(0.5), ps("x y"), ps(std::string("\0", 1))}}}});
     v.push_back({"mixed_reals", {{"mixed", {pr(2), pu(2), pi(2), pr(0.5), ps("2")}}}});
-    {
-        PSpec p{"sixteen", {}, false};
-        for (int k = 0; k < 16; k++) p.vals.push_back(k % 3 == 0 ? pu(k) : k % 3 == 1 ? pi(-k) : ps(fmt("v%d", k)));
-        v.push_back({"sixteen_values", {p}});
+    // value counts around the limit of the 4-bit count field of the PROPERTY record (15 = "count follows")
+    static const char* count_labels[] = {"fourteen_values", "fifteen_values", "sixteen_values", "forty_values"};
+    int counts[] = {14, 15, 16, 40};
+    for (int c = 0; c < 4; c++) {
+        PSpec p{"many", {}, false};
+        for (int k = 0; k < counts[c]; k++) p.vals.push_back(k % 3 == 0 ? pu(k) : k % 3 == 1 ? pi(-k) : ps(fmt("v%d", k)));
+        v.push_back({count_labels[c], {p}});
     }
     v.push_back({"same_name_twice", {{"a", {pu(1)}}, {"a", {pu(2), ps("abc")}}}});
     v.push_back({"three_props_shared_string", {{"a", {ps("shared")}}, {"b", {ps("shared"), ps("other")}}, {"c", {pi(-5), ps("shared")}}}});
@@ -515,7 +519,7 @@ inline std::vector<Entry> make_entries() {
                 int pi_ = (int)k;
                 bool multi = props_multi(pi_);
                 std::string lbl = P[k].label;
-                bool red = (lbl == "mixed5") || (o == 2 && (lbl == "r_lossy_recip" || lbl == "sixteen_values" || lbl == "three_props_shared_string" || lbl == "gds_property")) || (o <= 1 && lbl == "same_name_twice");
+                bool red = (lbl == "mixed5") || (o == 2 && (lbl == "r_lossy_recip" || lbl == "sixteen_values" || lbl == "fifteen_values" || lbl == "three_props_shared_string" || lbl == "gds_property")) || (o <= 1 && lbl == "same_name_twice");
                 add_single(E, fmt("props.%s", owners[o]), P[k].label,
                            [=](Builder& b, Cell* a) {
                                switch (o) {
@@ -621,8 +625,8 @@ inline std::vector<Entry> make_entries() {
         double rots[] = {0, 0.5 * M_PI, M_PI, 0.3, -0.5 * M_PI, 1.5 * M_PI};
         const char* rot_names[] = {"0", "pi/2", "pi", "0.3", "-pi/2", "3pi/2"};
         double mags[] = {1, 0.5, 2};
-        const char* kinds[] = {"present_by_pointer", "absent_by_name", "not_added_by_pointer"};
-        for (int kind = 0; kind < 3; kind++)
+        const char* kinds[] = {"present_by_pointer", "absent_by_name", "not_added_by_pointer", "present_by_name"};
+        for (int kind = 0; kind < 4; kind++)
             for (int r = 0; r < 6; r++)
                 for (int refl = 0; refl < 2; refl++)
                     for (double mag : mags) {
@@ -633,9 +637,10 @@ inline std::vector<Entry> make_entries() {
                                        Vec2 org = {-3, 4};
                                        if (kind == 0) { Cell* c = b.cell("B"); b.poly(c, tri, T(1, 0)); b.ref(a, c, org, rot, mag, refl); }
                                        else if (kind == 1) b.ref_name(a, "MISSING", org, rot, mag, refl);
+                                       else if (kind == 3) { Cell* c = b.cell("B"); b.poly(c, tri, T(1, 0)); b.ref_name(a, "B", org, rot, mag, refl); }
                                        else { Cell* c = b.cell("NOTADD", false); b.poly(c, tri, T(1, 0)); b.ref(a, c, org, rot, mag, refl); }
                                    },
-                                   [=](Info& i) { i.dangling_ref = kind != 0; i.reduced = red; });
+                                   [=](Info& i) { i.dangling_ref = kind == 1 || kind == 2; i.reduced = red && kind != 3; });
                     }
         add_single(E, "reference.present_by_pointer", "offgrid origin, child listed before parent",
                    [=](Builder& b, Cell* a) { Cell* c = b.cell("B"); b.poly(c, tri, T(1, 0)); b.ref(a, c, Vec2{0.00025, -1.00075}); b.lib->cell_array[0] = c; b.lib->cell_array[1] = a; });
@@ -897,6 +902,15 @@ inline const Info& info(int64_t i) { return entries()[i].info; }
 inline std::string describe(int64_t i) {
     const Info& f = entries()[i].info;
     return jobj({{"library", jint(i)}, {"family", jstr(f.family)}, {"member", jstr(f.desc)}});
+}
+// stable identifier of a member (does not change when other members are added to the corpus)
+inline std::string key(int64_t i) {
+    const Info& f = entries()[i].info;
+    return vf::hash128(f.family + "|" + f.desc).substr(0, 16);
+}
+inline int64_t find_key(const std::string& k) {
+    for (int64_t i = 0; i < count(); i++) if (key(i) == k) return i;
+    return -1;
 }
 inline Library* build(int64_t i) {
     Builder b;
